@@ -370,6 +370,11 @@ pub struct Applied {
 /// component paths) and encode.  A panic at an injection call is a rejection; a panic in
 /// parse/encode is returned as Err.
 pub fn run_plan(bytes: &[u8], plan: &[Inj], mm: bool) -> Result<Applied, Outcome> {
+    run_plan_n(bytes, plan, mm, 1)
+}
+
+/// Like `run_plan`, with `encodes` consecutive encodings; the last output is returned.
+pub fn run_plan_n(bytes: &[u8], plan: &[Inj], mm: bool, encodes: usize) -> Result<Applied, Outcome> {
     let component = plan.iter().any(|i| i.path.is_component());
     let mut rejected = vec![];
     crate::capture::clear_logs();
@@ -390,10 +395,13 @@ pub fn run_plan(bytes: &[u8], plan: &[Inj], mm: bool) -> Result<Applied, Outcome
             });
             rejected.push(r.err().map(|p| p.msg));
         }
-        let out = match run_lib(|| comp.encode()) {
-            Ok(b) => b,
-            Err(p) => return Err(super::common::panic_fail("encode", &p)),
-        };
+        let mut out = vec![];
+        for _ in 0..encodes.max(1) {
+            out = match run_lib(|| comp.encode()) {
+                Ok(b) => b,
+                Err(p) => return Err(super::common::panic_fail("encode", &p)),
+            };
+        }
         let logs = crate::capture::take_logs();
         let m = match super::small::extract_first_module(&out) {
             Some(m) => m,
@@ -409,10 +417,13 @@ pub fn run_plan(bytes: &[u8], plan: &[Inj], mm: bool) -> Result<Applied, Outcome
             let r = run_lib(|| apply_module(&mut module, inj));
             rejected.push(r.err().map(|p| p.msg));
         }
-        let out = match run_lib(|| module.encode()) {
-            Ok(b) => b,
-            Err(p) => return Err(super::common::panic_fail("encode", &p)),
-        };
+        let mut out = vec![];
+        for _ in 0..encodes.max(1) {
+            out = match run_lib(|| module.encode()) {
+                Ok(b) => b,
+                Err(p) => return Err(super::common::panic_fail("encode", &p)),
+            };
+        }
         let logs = crate::capture::take_logs();
         Ok(Applied { rejected, out, logs })
     }
